@@ -21,7 +21,8 @@ def gen_cfg(rng):
         return {"kind": "token", "max": mx, "initial": rng.randint(0, mx)}
     mx = rng.choice([2, 3, 4, 8, 10])
     f = rng.choice([(1, 2), (1, 2), (3, 4), (1, 4), (1, 1), (0, 1)])
-    return {"kind": "aimd", "min": rng.randint(0, mx), "max": mx, "dep": rng.choice([1, 1, 2, 3]),
+    mn = rng.randint(0, mx) if rng.random() < 0.93 else mx + rng.randint(1, 6)   # 7 %: inverted range (rejected at construction)
+    return {"kind": "aimd", "min": mn, "max": mx, "dep": rng.choice([1, 1, 2, 3]),
             "wd": rng.choice([1, 1, 2, 3]), "fnum": f[0], "fden": f[1]}
 
 
@@ -127,6 +128,9 @@ def mon_conservation(case, lines, meta):
     if cfg.get("kind") == "aimd":
         cost, amount, initial, mx = int(cfg["wd"]), int(cfg["dep"]), int(cfg["max"]), int(cfg["max"])
         mn = int(cfg["min"])
+        if mn > mx and bal is not None and bal <= mx:
+            # the modelled code rejects an inverted range at construction; a budget that accepts it is outside the model
+            return "PINNED: an AIMD budget with min_budget %d > max_budget %d was constructed and used (balance %d within its maximum)" % (mn, mx, bal)
         if lim is not None and not (min(mn, mx) <= lim <= mx) and mn <= mx:
             return "AIMD limit %d outside [%d,%d]" % (lim, mn, mx)
     else:
